@@ -748,21 +748,10 @@ func ruleC07R3(c *Ctx) {
 				args = args[1:] // receiver
 			}
 			for _, a := range args {
-				// does the argument derive from record bytes?
-				roots := map[ssa.Value]bool{}
-				deepRoots(a, roots)
-				src := ""
-				for r := range roots {
-					if cl, ok := r.(*ssa.Call); ok {
-						if f := cl.Common().StaticCallee(); f != nil && recordStringSources[anchorName(f)] {
-							src = anchorName(f)
-						}
-					}
-					if u, ok := r.(*ssa.UnOp); ok {
-						if fa, ok := strip(u.X).(*ssa.FieldAddr); ok && fieldName(fa.X.Type(), fa.Field) == "base.LogRecord.Fields" {
-							src = "LogRecord.Fields"
-						}
-					}
+				// does the argument derive from record bytes (whatever copies are made on the way)?
+				derived, src := taintWalk(a, taintCfg{sanitizer: func(string) bool { return false }})
+				if !derived {
+					src = ""
 				}
 				if src == "" {
 					continue
@@ -774,6 +763,10 @@ func ruleC07R3(c *Ctx) {
 				ok := false
 				av := strip(a)
 				if cl, isCall := av.(*ssa.Call); isCall && cl.Common().StaticCallee() != nil && extName(cl.Common().StaticCallee()) == "strings.ToValidUTF8" {
+					ok = true
+				}
+				// every flow from record bytes into the argument (including elements stored into the slice) passes ToValidUTF8
+				if unsanitised, _ := taintWalk(a, taintCfg{sanitizer: func(n string) bool { return n == "strings.ToValidUTF8" }}); !unsanitised {
 					ok = true
 				}
 				if !ok {
